@@ -14,7 +14,8 @@ PROPERTY = 'C11'
 RULE = ('Direct calls of the long/short sizer on a real broker: 1-6 assets, signed weights (mixed, one-sided, '
         'all-zero, near-zero gross, small integers, single), prices log-U(0.01,1e5) plus sub-unit values, equity '
         'log-U(1,1e10) as cash or cash plus marked positions, leverage {1, default}|U(0.01,20), fee zero/default/'
-        'percentage; invalid leverage <= 0 and NaN prices must raise ValueError. Oracle in exact rationals with '
+        'percentage; invalid leverage <= 0 and NaN prices must raise ValueError; the same sizer instance serves 1-3 '
+        'successive weight vectors; a third of the sizers are built by QuantTradingSystem. Oracle in exact rationals with '
         'alloc=E*L*w/sum|w| and after=alloc-f*|alloc|: q is an int, q==0 or sign(q)==sign(w), |q|*p <= |after| '
         'and (|q|+1)*p > |after|-1, sum|q|*p <= L*E*(1+f) (1e-12 relative slack). Plus an exhaustive small grid. '
         'Non-trivial = both signs present, fee>0 and a short leg whose |after|/p has a fractional part, or a '
